@@ -73,6 +73,11 @@ impl TrainDisp {
             self.time_update
         };
 
+        // A free path update may have re-routed the train at the split point it was fixed at, onto a
+        // branch whose first leg is shorter than that of the branch it had been timed along.  The
+        // time already fixed stays: the train never moves on earlier than that.
+        self.time_update_next = self.time_update_next.max(self.time_update);
+
         let disp_node_idx_save = self.disp_node_idx_free;
         let offset_save = self.offset_free;
 
